@@ -17,6 +17,8 @@ import (
 // result, and shuts down: after the context is cancelled Wait returns (no goroutine of the
 // engine is left blocked).
 func VH_C09_K13_EngineRunsAndStops() {
+	// stated assumption (K9): the 100 ms blocked-send guards of handleProposalViewUpdate never fire
+	verifrt.Summarize("SMQuietSendGuardTimers")
 	opts, names, nReq := vhValidOpts()
 	optional := verifrt.Choose("optional-subset", 4)
 	var use []Opt
